@@ -23,26 +23,26 @@ def outcomeNodes (line : String) : Except String (List Node) :=
     | .error e => .error ("unparsable outcome: " ++ e)
   else .error "not a tree outcome"
 
-def evalProp (prop : String) (src : Str) (parts : List Node) : List Viol :=
+def evalProp (prop : String) (src : Str) (parts : List Node) (dbg : Bool := false) : List Viol :=
   match prop with
-  | "C03" => (parts.map (spansWF src.length)).flatten ++
+  | "C03" => (parts.map (spansWF src.length · dbg)).flatten ++
       (if ordered parts then [] else ["top-level-parts-unordered"])
-  | "C04" => (parts.map (textOK src)).flatten
+  | "C04" => (parts.map (textOK src · dbg)).flatten
   | "C05" => coverOK src parts
-  | "C12" => (parts.map schemaOK).flatten
+  | "C12" => (parts.map (schemaOK · dbg)).flatten
   | _ => ["unknown-property"]
 
 /-- `spec <props> <src> <outcome line>` → `C03:sig,sig C12:` ...; `ILL:<reason>` if the outcome
     is not a well-typed tree -/
 def specHandle (cmd opts inp : String) (extra : List String) : String :=
   match cmd, extra with
-  | "spec", [line] =>
+  | "spec", [line] | "specdbg", [line] =>
     let src := parseHexInputS inp
     match outcomeNodes line with
     | .error e => "ILL:" ++ e
     | .ok parts =>
       " ".intercalate ((opts.splitOn ",").map fun p =>
-        p ++ ":" ++ ",".intercalate (dedup (evalProp p src parts)))
+        p ++ ":" ++ ",".intercalate (dedup (evalProp p src parts (cmd == "specdbg"))))
   | _, _ => "BAD-REQUEST"
 where
   parseHexInputS (s : String) : Str :=
